@@ -624,6 +624,107 @@ func streamOverlap(c *check) {
 	}
 }
 
+// nestSS is a stream whose operation lets another operation on the same wrapped stream run while
+// it is in progress: gRPC allows one goroutine in RecvMsg and another in SendMsg on one stream, and
+// the inner stream is the seam at which they overlap (nested here; concurrent calls interleave the
+// same way at this granularity).
+type nestSS struct {
+	golangGrpc.ServerStream
+	log    *evlog
+	during func()
+	errs   []error // result of the outer operation, then of the nested one
+	n      int
+}
+
+func (s *nestSS) Context() context.Context { return context.Background() }
+func (s *nestSS) op(name string) error {
+	i := s.n
+	s.n++
+	s.log.add("%s#%d starts", name, i)
+	if i == 0 && s.during != nil {
+		s.during()
+	}
+	s.log.add("%s#%d ends", name, i)
+	return s.errs[i]
+}
+func (s *nestSS) RecvMsg(m interface{}) error { return s.op("stream.RecvMsg") }
+func (s *nestSS) SendMsg(m interface{}) error { return s.op("stream.SendMsg") }
+
+type namedSerialLimiter struct {
+	name string
+	n    int
+	log  *evlog
+}
+
+func (r *namedSerialLimiter) Acquire(ctx context.Context) (core.Listener, bool) {
+	r.n++
+	r.log.add("%s.Acquire#%d", r.name, r.n)
+	return &recListener{fmt.Sprintf("%s.token#%d", r.name, r.n), r.log}, true
+}
+
+// streamSelfOverlap: a RecvMsg and a SendMsg (either may be the outer one, and also two operations
+// of the same kind) in progress on ONE wrapped stream at the same time. Each operation acquires from
+// its own limiter and completes its own token exactly once with its own outcome.
+func streamSelfOverlap(c *check) {
+	errOuter, errNested := errors.New("outer operation failed"), errors.New("nested operation failed")
+	names := []string{"RecvMsg", "SendMsg"}
+	lims := []string{"recv", "send"}
+	for outer := 0; outer < 2; outer++ {
+		for nested := 0; nested < 2; nested++ {
+			for eo := 0; eo < 2; eo++ {
+				for en := 0; en < 2; en++ {
+					log := &evlog{}
+					recv := &namedSerialLimiter{name: "recv", log: log}
+					send := &namedSerialLimiter{name: "send", log: log}
+					ic := gl.StreamServerInterceptor(gl.WithStreamRecvLimiter(recv), gl.WithStreamSendLimiter(send))
+					inner := &nestSS{log: log, errs: []error{nil, nil}}
+					if eo == 1 {
+						inner.errs[0] = errOuter
+					}
+					if en == 1 {
+						inner.errs[1] = errNested
+					}
+					choices := []int{outer, nested, eo, en}
+					var gotOuter, gotNested error
+					do := func(st golangGrpc.ServerStream, kind int) error {
+						if kind == 1 {
+							return st.SendMsg("m")
+						}
+						return st.RecvMsg("m")
+					}
+					ic(nil, inner, &golangGrpc.StreamServerInfo{FullMethod: "/svc/S"}, func(srv interface{}, st golangGrpc.ServerStream) error {
+						inner.during = func() { gotNested = do(st, nested) }
+						gotOuter = do(st, outer)
+						return nil
+					})
+					c.n++
+					c.states[fmt.Sprint(choices, log.ev)] = true
+					kind := func(e error) string {
+						if e != nil {
+							return "OnDropped"
+						}
+						return "OnSuccess"
+					}
+					outerTok, nestedTok := lims[outer]+".token#1", lims[nested]+".token#1"
+					nestedAcq := lims[nested] + ".Acquire#1"
+					if outer == nested {
+						nestedTok, nestedAcq = lims[nested]+".token#2", lims[nested]+".Acquire#2"
+					}
+					want := []string{lims[outer] + ".Acquire#1", "stream." + names[outer] + "#0 starts", nestedAcq, "stream." + names[nested] + "#1 starts",
+						"stream." + names[nested] + "#1 ends", nestedTok + "." + kind(inner.errs[1]), "stream." + names[outer] + "#0 ends", outerTok + "." + kind(inner.errs[0])}
+					what := fmt.Sprintf("%s (err=%v) in progress on a stream while %s (err=%v) runs on the same stream", names[outer], eo == 1, names[nested], en == 1)
+					if strings.Join(log.ev, " | ") != strings.Join(want, " | ") {
+						c.fail("stream-self-overlap/token-completion", choices, "%s: events %v, expected %v", what, log.ev, want)
+					}
+					if gotOuter != inner.errs[0] || gotNested != inner.errs[1] {
+						c.fail("stream-self-overlap/result-altered", choices, "%s: outer returned %v (stream %v), nested returned %v (stream %v)", what, gotOuter, inner.errs[0], gotNested, inner.errs[1])
+					}
+				}
+			}
+		}
+	}
+}
+
 func main() {
 	prop := flag.String("prop", "C14", "")
 	tier := flag.String("tier", "quick", "")
@@ -678,6 +779,7 @@ func main() {
 		run("C14/stream", fmt.Sprintf("all sequences of <=%d RecvMsg/SendMsg x grant x error x classifier x options; distinct recv/send limiters", maxLen), func(c *check) { streams(c, maxLen) })
 		run("C14/unary-overlap", "a second call through the same interceptor value while the first handler runs x results; server and client", func(c *check) { unaryOverlap(c, true); unaryOverlap(c, false) })
 		run("C14/stream-overlap", "two streams on one interceptor value x RecvMsg/SendMsg x stream errors x order of use", streamOverlap)
+		run("C14/stream-self-overlap", "RecvMsg/SendMsg in progress on one stream while RecvMsg/SendMsg runs on the same stream x stream errors", streamSelfOverlap)
 		run("C14/stream-defaults", "no options / only one limiter supplied x RecvMsg/SendMsg x stream error", streamDefaults)
 	}
 	o.WallS = time.Since(start).Seconds()
